@@ -143,6 +143,17 @@ def _origin(context, root) -> str:
     return "missing"
 
 
+def _owns(node, path) -> bool:
+    """Is ``path`` part of one of the node's own expressions?"""
+    todo = list(node.expressions())
+    while todo:
+        e = todo.pop()
+        if e is path:
+            return True
+        todo.extend(e.children())
+    return False
+
+
 def static_segments(path) -> list:
     from liquid.builtin.expressions.path import Path
 
@@ -189,7 +200,7 @@ def bindings_of(node) -> tuple[set, bool, object]:
     return names, False, None
 
 
-ASSIGN_RE = re.compile(r"(?:assign|capture|increment|decrement)\s+([^\s=%|]+)")
+ASSIGN_RE = re.compile(r"(?<!\w)(?:assign|capture|increment|decrement)[ \t]+([^\s=%|]+)")
 
 
 def sources_of(case) -> dict:
@@ -269,6 +280,12 @@ def evaluate(case) -> Verdict:
         if entered and entered[0]:
             contexts_per_partial.setdefault(entered[0], set()).add(entered[1])
         if origin != "globals" or root in bound or root in assigned:
+            continue
+        if type(stack[-1]).__name__ == "CallNode" and not _owns(stack[-1], path):
+            # the default value of a macro parameter, evaluated when the macro is called: textually it sits in the
+            # macro definition, whose enclosing bindings (an include's arguments, say) are what the static clause
+            # looks at - exempt
+            v.labels.append("macro-default-read")
             continue
         obligations += 1
         if tname != "main":
